@@ -275,6 +275,27 @@ def _variant_sites(tr, body, g, local, loc):
     return sites_of(local, loc, 0)
 
 
+def optionlike_role(facts, body, e):
+    """'none' | 'some' | None for a dominating enum edge: `None` / `Some` of an Option, or the unit / payload variant of
+    a workspace enum shaped like one (`enum WaitPolicy { Unbounded, AtMost(Duration) }`, `Claim::{Released, Held(k)}`)"""
+    if e.get("kind") != "enum":
+        return None
+    if e["label"] == "None":
+        return "none"
+    if e["label"] == "Some":
+        return "some"
+    rv = getattr(e.get("sw"), "rv", None) or {}
+    ty = body.types[rv["ty"]] if isinstance(rv.get("ty"), int) else None
+    adt = facts.adt(ty.get("def")) if ty and ty.get("def") else None
+    if adt is None or len(adt.get("variants", [])) != 2:
+        return None
+    units = [v for v in adt["variants"] if not v["fields"]]
+    pays = [v for v in adt["variants"] if len(v["fields"]) == 1]
+    if len(units) != 1 or len(pays) != 1:
+        return None
+    return "none" if e["label"] == units[0]["name"] else "some" if e["label"] == pays[0]["name"] else None
+
+
 def enum_edges(tr, body, pred):
     """[(bb, target, label)] of every enum-switch edge in `body` whose scrutinee node satisfies pred(node)"""
     g = graph(body)
@@ -550,8 +571,17 @@ def field_provenance(tr, adt, name, depth=0, seen=None):
                     for cr in facts.crates.values():
                         if adt in cr.adts:
                             fty = cr.types[f_["ty"]]["s"]
-    if any(k in fty for k in ("Atomic", "Mutex", "RwLock", "Cell<", "Semaphore")) or field_writes(facts, adt, name):
+    if any(k in fty for k in ("Atomic", "Mutex", "RwLock", "Cell<", "Semaphore")):
         return out
+    ws = field_writes(facts, adt, name)
+    # a builder's field is written by its public setter(s): the option is known to users by the setter's name, whatever
+    # the field is called and however the value is wrapped (`fn max_wait_duration(mut self, d) { self.wait = AtMost(d) }`)
+    setters = [b_ for (b_, _i, _j, _s) in ws if b_.kind == "fn" and b_.j.get("vis") == "pub" and b_.impl and not b_.impl.get("trait")
+               and b_.types[b_.impl["self_ty"]].get("def") == adt and b_.arg_count >= 2]
+    if ws and not setters:
+        return out
+    for b_ in setters:
+        out.add(b_.name)
     for (ab, i, j, rv) in agg_sites(facts, adt):
         if name not in rv["fields"]:
             continue
@@ -657,6 +687,9 @@ def _value_sites(tr, body, op, loc, depth=0):
         p_ = pl["p"]
         if len(p_) == 2 and isinstance(p_[0], dict) and "downcast" in p_[0] and isinstance(p_[1], dict) and p_[1].get("f") == 0 and depth < 6:
             ds = g.reaching(pl["l"], loc)
+            # definitions that build another variant cannot be where `(x as V).0` comes from (`break None` next to `break Some(r)`)
+            if ds and all(d[3] == "assign" and not d[4] and d[5]["k"] == "agg" and d[5].get("variant") is not None for d in ds):
+                ds = [d for d in ds if d[5].get("variant") == p_[0].get("v")]
             if ds and all(d[3] == "assign" and not d[4] and d[5]["k"] == "agg" and d[5].get("variant") == p_[0].get("v") and len(d[5]["ops"]) == 1 for d in ds):
                 out = []
                 for d in ds:
@@ -726,7 +759,7 @@ def agg_sites(facts, adt_def, variant=None):
     return out
 
 
-def check_share(facts, tr, rep, rule, adt_def, only_fields=None):
+def check_share(facts, tr, rep, rule, adt_def, only_fields=None, _depth=0):
     """T-SHARE: every Clone impl of adt_def takes each Arc field from Arc::clone of the same field of self"""
     adt = facts.adt(adt_def)
     if adt is None:
@@ -775,6 +808,39 @@ def check_share(facts, tr, rep, rule, adt_def, only_fields=None):
                            "Clone shares %s.%s (Arc::clone of self.%s)" % (adt_def.split("::")[-1], fname, fname) if ok else
                            "Clone of %s builds field %s from %s, not from Arc::clone(&self.%s): clones would not share state"
                            % (adt_def.split("::")[-1], fname, desc, fname))
+    # shared handles grouped into a private struct held by value (`admission: Admission { permits: Arc<..>, config: Arc<..> }`):
+    # the outer Clone clones that field of self, and the struct's own Clone shares its handles
+    if _depth < 2 and only_fields is None:
+        for f in adt["variants"][0]["fields"]:
+            fd = crate.types[f["ty"]].get("def")
+            if not fd or facts.adt(fd) is None or not fd.startswith(crate.name) or fd == adt_def:
+                continue
+            if not any(im2.get("trait") == CLONE.rsplit("::", 1)[0] and crate.types[im2["self_ty"]].get("def") == fd for im2 in crate.impls):
+                continue
+            sub_has_arc = any(crate.types[f2["ty"]]["s"].startswith("alloc::sync::Arc<") for f2 in facts.adt(fd)["variants"][0]["fields"])
+            if not sub_has_arc:
+                continue
+            outer_ok = False
+            for im in crate.impls:
+                if im.get("trait") != CLONE.rsplit("::", 1)[0] or crate.types[im["self_ty"]].get("def") != adt_def:
+                    continue
+                for it in im["items"]:
+                    b = facts.bodies.get(it["def"])
+                    if b is None or it["name"] != "clone":
+                        continue
+                    for (ab, i, j, rv) in agg_sites(facts, adt_def):
+                        if ab is b and f["name"] in rv["fields"]:
+                            node = peel(tr.expand(tr.operand(b, rv["ops"][rv["fields"].index(f["name"])], (i, j))))
+                            if node[0] == "call" and tr.call_of(node).def_ == CLONE:
+                                c = tr.call_of(node)
+                                src = peel(tr.expand(tr.operand(c.g.b, c.args[0], c.loc)))
+                                outer_ok = src[0] == "field" and src[2] == f["name"] and peel(src[1])[0] == "param"
+            sub = check_share(facts, tr, rep, rule, fd, _depth=_depth + 1)
+            if sub:
+                rep.ob(rule, "%s|%s|clone.%s" % (crate.name, adt_def, f["name"]), outer_ok, "-",
+                       "Clone clones self.%s, whose own Clone shares its handles" % f["name"] if outer_ok else
+                       "Clone of %s does not build %s from a clone of self.%s" % (adt_def.split("::")[-1], f["name"], f["name"]))
+                n += sub
     return n
 
 
